@@ -317,6 +317,25 @@ type getOperation struct {
 	voxels      *Voxels
 	blocksInROI map[string]bool
 	attenuation uint8
+	failed      *chunkFailure // shared by all chunks of one GetVoxels call
+}
+
+// chunkFailure keeps the first error met by the chunk goroutines of one read,
+// so that the read can be failed instead of returning background for that block.
+type chunkFailure struct {
+	sync.Mutex
+	err error
+}
+
+func (f *chunkFailure) set(err error) {
+	if f == nil {
+		return
+	}
+	f.Lock()
+	if f.err == nil {
+		f.err = err
+	}
+	f.Unlock()
 }
 
 // GetVoxels copies voxels from the storage engine to Voxels, a requested subvolume or 2d image.
@@ -343,6 +362,7 @@ func (d *Data) GetVoxels(v dvid.VersionID, vox *Voxels, roiname dvid.InstanceNam
 	ctx := datastore.NewVersionedCtx(d, v)
 
 	wg := new(sync.WaitGroup)
+	failed := new(chunkFailure)
 
 	okv := store.(storage.BufferableOps)
 	// extract buffer interface
@@ -398,9 +418,9 @@ func (d *Data) GetVoxels(v dvid.VersionID, vox *Voxels, roiname dvid.InstanceNam
 					blocksInROI[indexString] = true
 				}
 			}
-			chunkOp = &storage.ChunkOp{&getOperation{vox, blocksInROI, r.attenuation}, wg}
+			chunkOp = &storage.ChunkOp{&getOperation{vox, blocksInROI, r.attenuation, failed}, wg}
 		} else {
-			chunkOp = &storage.ChunkOp{&getOperation{vox, nil, 0}, wg}
+			chunkOp = &storage.ChunkOp{&getOperation{vox, nil, 0, failed}, wg}
 		}
 
 		if !hasbuffer {
@@ -448,7 +468,7 @@ func (d *Data) GetVoxels(v dvid.VersionID, vox *Voxels, roiname dvid.InstanceNam
 		return err
 	}
 	wg.Wait()
-	return nil
+	return failed.err
 }
 
 // GetBlocks returns a slice of bytes corresponding to all the blocks along a span in X
@@ -712,10 +732,12 @@ func (d *Data) readChunk(chunk *storage.Chunk) {
 		blockData, _, err = dvid.DeserializeData(chunk.V, true)
 		if err != nil {
 			dvid.Errorf("Unable to deserialize block in '%s': %v\n", d.DataName(), err)
+			op.failed.set(fmt.Errorf("unable to deserialize block %s in %q: %v", indexZYX, d.DataName(), err))
 			return
 		}
 		if expected := d.BlockSize().Prod() * int64(d.Values.BytesPerElement()); int64(len(blockData)) != expected {
 			dvid.Errorf("Deserialized block length (%d) != expected block length (%d) in '%s'\n", len(blockData), expected, d.DataName())
+			op.failed.set(fmt.Errorf("block %s in %q has %d bytes instead of %d", indexZYX, d.DataName(), len(blockData), expected))
 			return
 		}
 	}
